@@ -86,19 +86,25 @@ def call_of(prog: Program, cls: ClassInfo) -> FuncInfo | None:
 
 
 def init_attrs(prog: Program, cls: ClassInfo, _depth=0) -> dict[str, list]:
-    """self attribute -> list of value terms stored by the constructor chain (one per path)."""
+    """self attribute -> list of value terms the constructor chain may leave there (one per distinct path)."""
     out: dict[str, list] = {}
     f = prog.lookup_method(cls, "__init__")
     if f is None:
         return out
+
+    def add(k, v):
+        out.setdefault(k, [])
+        if v not in out[k]:
+            out[k].append(v)
+
     for p in P.paths_of(prog, f):
+        final: dict[str, list] = {}
         # follow super().__init__(...)
         for c in p.calls():
             if c[1][0] == "attr" and c[1][2] == "__init__" and T.is_call_to(c[1][1], "builtins.super") and _depth < 4:
                 mro = prog.mro(f.cls)
                 if len(mro) > 1:
                     sup = init_attrs(prog, mro[1], _depth + 1)
-                    # substitute parameters of the super ctor by the arguments passed
                     sf = prog.lookup_method(mro[1], "__init__")
                     sub = {}
                     if sf:
@@ -109,22 +115,13 @@ def init_attrs(prog: Program, cls: ClassInfo, _depth=0) -> dict[str, list]:
                             if k:
                                 sub[k] = v
                     for k, vs in sup.items():
-                        for v in vs:
-                            v2 = T.rewrite(v, lambda tm: sub.get(tm[1]) if tm[0] == "param" and tm[1] in sub else None)
-                            out.setdefault(k, [])
-                            if v2 not in out[k]:
-                                out[k].append(v2)
-        last: dict[str, tuple] = {}
+                        final[k] = [T.rewrite(v, lambda tm: sub.get(tm[1]) if tm[0] == "param" and tm[1] in sub else None) for v in vs]
         for e in p.events:
             if e[0] == "setattr" and e[1] == SELF:
-                last[e[2]] = e[3]
-        for k, v in last.items():
-            out.setdefault(k, [])
-            if k in out and any(True for _ in ()):
-                pass
-            # a later store on this path overrides what super stored
-            out[k] = [x for x in out[k] if x == v] or []
-            out[k].append(v) if v not in out[k] else None
+                final[e[2]] = [e[3]]
+        for k, vs in final.items():
+            for v in vs:
+                add(k, v)
     return out
 
 
